@@ -56,7 +56,7 @@ func init() {
 		Technique: "deterministic simulation of map-iteration order and construction history: repeated NewWordList constructions from permuted/duplicated inputs under simulator-chosen visit orders (hook H4) and native orders, Entropy() compared with the statement's formula and bit-for-bit across constructions",
 		Rule:      "case = one Entropy() call on one construction of one input under one visit order, scheme and separator; distinct by hash of (input multiset, visit order, scheme, separator); non-trivial = the list contains a word together with its title-cased twin or a word that title-casing does not change",
 		Assumptions: []string{"title-casing is strings.Title", "separator entropy is what the separator function reports; for presets and recipe separators this is log2 of the number of strings the recipe allows", "float32 tolerance max(1e-4, 4 ulp) against the formula; bit-identity across constructions of the same input"},
-		Episodes:    map[string]int{"quick": 800, "thorough": 30000},
+		Episodes:    map[string]int{"quick": 4000, "thorough": 40000},
 		TwiceEvery:  0,
 		Real:        []string{"NewWordList (real map and real twin-removal loop body)", "WLRecipe.Entropy", "separator presets / NewSFFunction"},
 		Simulated:   []string{"map visit order in NewWordList (H4)", "word index order (H3)", "order and multiplicity of the caller's input", "crypto/rand.Reader (tape for separator generations inside Entropy)"},
@@ -113,7 +113,7 @@ func init() {
 		Technique: "deterministic simulation of map-iteration order and construction history: repeated NewWordList constructions from permuted/duplicated inputs under simulator-chosen visit and index orders; the kept set is read out through the public API by forcing every index on the scripted tape and compared with the reference normalisation",
 		Rule:      "case = one construction (input order and multiplicity, visit order, index order) whose size and complete kept set are compared with the model; distinct by hash of (input sequence, visit order); non-trivial = the input has a duplicate, a title-cased twin, or a word title-casing does not change",
 		Assumptions: []string{"title-casing is strings.Title", "the kept set is read out by generating one-word passwords for every index (scripted tape) and cross-checked with the verif-tagged accessor"},
-		Episodes:    map[string]int{"quick": 800, "thorough": 30000},
+		Episodes:    map[string]int{"quick": 8000, "thorough": 80000},
 		TwiceEvery:  0,
 		Real:        []string{"NewWordList (real map and loop bodies)", "WordList.Size", "WLRecipe.Generate for the readout"},
 		Simulated:   []string{"map visit order in NewWordList (H4)", "word index order (H3)", "order and multiplicity of the caller's input", "crypto/rand.Reader (choice tape forcing each index)"},
@@ -122,6 +122,14 @@ func init() {
 			s := &C10Spec{Words: genWords(r, listOpt{min: 0, max: 10, twins: 0.4, precap: 0.2, caseless: 0.15, dups: 0.3, emptyWord: 0.05}), Constructions: 8 + r.Intn(8), Native: 8, Seed: seed}
 			if r.Chance(0.03) {
 				s.Words = nil
+			}
+			if len(s.Words) > 0 && r.Chance(0.3) {
+				// same length, different content
+				alt := genWords(r, listOpt{min: len(s.Words), max: len(s.Words), twins: 0.3, precap: 0.2, caseless: 0.1, dups: 0.2})
+				for len(alt) < len(s.Words) {
+					alt = append(alt, alt[0])
+				}
+				s.Alt = alt[:len(s.Words)]
 			}
 			if r.Chance(0.02) {
 				s.Shipped = pick(r, []string{"words", "syllables"})
@@ -258,6 +266,7 @@ func runC08(c *Ctx, si interface{}) {
 }
 
 type C10Spec struct {
+	Alt           []string `json:"alt,omitempty"` // a different input of the same length, constructed in place on the same backing array
 	Words         []string `json:"words"`
 	Shipped       string   `json:"shipped,omitempty"`
 	Constructions int      `json:"constructions"`
@@ -287,11 +296,25 @@ func runC10(c *Ctx, si interface{}) {
 		return
 	}
 	ml := modelList(words)
+	mlMain, mlAlt := ml, modelList(s.Alt)
 	twin, fixed := hasTwinOrFixed(words)
 	r := Sub(s.Seed, "variants")
 	total := s.Constructions + s.Native
+	shared := make([]string, len(words)) // one backing array reused across constructions
 	for k := 0; k < total; k++ {
 		in := variantInput(r, words, k)
+		ml = mlMain
+		if len(s.Alt) == len(words) && len(s.Alt) > 0 {
+			// construct in place on the same backing array, alternating between two different inputs
+			src := words
+			if k%2 == 1 {
+				src = s.Alt
+				ml = mlAlt
+			}
+			copy(shared, src)
+			in = shared
+			c.Probe("constructed_in_place_on_reused_backing_array", 1)
+		}
 		snap := append([]string{}, in...)
 		ord := OrderSpec{Chars: "sorted", Words: pick(r, []string{"sorted", "reverse", "perm"}), Visit: visitModes[k%len(visitModes)], Seed: mix(s.Seed, "ord", k)}
 		if k >= s.Constructions {
